@@ -124,6 +124,14 @@ def symbol_matrix(rnd):
                     yield {"lines": L(pre, " %s %s" % (mn, t)), "tag": "sym", "meta": {"mn": mn, "form": form, "v": v, "sp": sk, "stmt": 1}}
                     # defined after use
                     yield {"lines": L(" %s %s" % (mn, t), pre), "tag": "sym-late", "meta": {"mn": mn, "form": form, "v": v, "sp": sk, "stmt": 0}}
+    # negative EQU constants where a signed value is meaningful: immediates of both widths and index offsets (a value that
+    # does not fit the operand's width must be rejected however the constant reached the operand)
+    for v in [-1, -5, -16, -17, -127, -128, -129, -200, -255, -256, -257, -32768]:
+        for pre in ("SYM EQU %d" % v, "SYM EQU 0%d" % v):
+            for mn in ("LDA", "LDX", "CMPB", "ORCC", "ADDD", "LEAX", "STD"):
+                for form, t in (("imm", "#SYM"), ("imm+1", "#SYM+1"), ("idxsym", "SYM,Y"), ("idxsymind", "[SYM,Y]")):
+                    yield {"lines": L(pre, " %s %s" % (mn, t)), "tag": "sym", "meta": {"mn": mn, "form": form, "v": v, "sp": "neg", "stmt": 1}}
+                    yield {"lines": L(" %s %s" % (mn, t), pre), "tag": "sym-late", "meta": {"mn": mn, "form": form, "v": v, "sp": "neg", "stmt": 0}}
     for org in (None, 0x10, 0x100, 0x3F00, 0xFF00):
         for mn in ("LDA", "LDX", "JMP", "LEAY"):
             for form, t in (("imm", "#LBL"), ("mem", "LBL"), ("extind", "[LBL]"), ("mem+1", "LBL+1"), ("mem-1", "LBL-1"), ("imm+1", "#LBL+2"),
@@ -187,6 +195,9 @@ def data_cases(rnd, n=300):
         (["N EQU -1", " RMB N"], None),                        # a negative count
         (["N EQU -2", " FCB N", " FDB N", " FDB N+1", " FCB N*2"], {1: "fe", 2: "fffe", 3: "ffff", 4: "fc"}),
         (["S EQU -5", " ORG S"], None),                        # a negative origin
+        (["N EQU -200", " FCB N"], None), (["N EQU -129", " FCB N"], None), (["N EQU -255", " FCB N"], None), (["N EQU 0-200", " FCB N"], None),
+        ([" FCB N", "N EQU -200"], None), (["N EQU 256", " FCB N"], None),
+        (["N EQU -128", " FCB N", " FDB N"], {1: "80", 2: "ff80"}), (["N EQU -32768", " FDB N"], {1: "8000"}), (["N EQU 255", " FCB N"], {1: "ff"}),
         ([" FCB 0-1", " FCB 0-128", " FDB 0-1", " FDB 1-32769"], {0: "ff", 1: "80", 2: "ffff", 3: "8000"}),
         ([" FCB 0-129"], None),
         ([" FCB 255+1"], None),
